@@ -262,7 +262,11 @@ func sysRandomStims(rng *rand.Rand, cfg sys.Config, n int, w map[string]int) []s
 			}
 			out = append(out, sys.Stim{K: k, T: append(append([]string{}, cfg.Threads...), "sv")[rng.Intn(len(cfg.Threads)+1)]})
 		case "point":
-			out = append(out, sys.Stim{K: "point", T: append(append([]string{}, cfg.Threads...), "sv")[rng.Intn(len(cfg.Threads)+1)]})
+			ts := append(append([]string{}, cfg.Threads...), "sv")
+			if hasPoint(cfg, "manager.stream.ctx") {
+				ts = append(ts, "ms_cli", "ms_cli", "ms_srv")
+			}
+			out = append(out, sys.Stim{K: "point", T: ts[rng.Intn(len(ts))]})
 		}
 	}
 	return out
